@@ -390,7 +390,8 @@ def r11_5(ctx: Ctx) -> None:
                "check_valid keeps state between calls (a verdict remembered from an earlier request or an earlier state can be "
                "served for this one)", bad[:6])
     am = ix.method("PrimaiteGame.action_mask")
-    badm = [f"line {n.lineno}: store to {t}" for n, t in _stores(am.node) if not re.match(r"mask\[", t)]
+    # stores into a container that is a plain local of the function build the result; anything rooted in an attribute is state
+    badm = [f"line {n.lineno}: store to {t}" for n, t in _stores(am.node) if "." in t.split("[")[0]]
     ctx.record("R11.5", ctx.key(am, "mask construction stores only mask entries"), am.loc(), not badm,
                "only mask[...] is written" if not badm else "action_mask writes other state", badm[:6])
     # pre_timestep closure
